@@ -195,15 +195,21 @@ def canon(height, rects):
                     ['(' + ' '.join(sx.atom(v) for v in r) + ')' for r in rects])
 
 
-def impl_out(case, shorthand=False):
-    """Render and canonicalise; exceptions become `err:<Class>`."""
+def impl_out(case, shorthand=False, seconds=10):
+    """Render and canonicalise; exceptions become `err:<Class>`.  The `while not all frozen` loop of 9.7.5 has no
+    bound of its own: a CPU-time limit (ITIMER_PROF, as for the grid placement loops) turns a layout that does not
+    come back into the outcome `err:NonTermination` (the model proves termination: `C12.flex_terminates`)."""
+    from harness.c12_grid import wall_clock
+
     def go():
-        document = docs.render(html_of(case, shorthand))
+        with wall_clock(seconds):
+            document = docs.render(html_of(case, shorthand))
         if len(document.pages) != 1:
             return f'pages={len(document.pages)}'
         cont, rects = extract(document)
         return canon(cont.height, rects)
-    return docs.outcome(go)
+    out = docs.outcome(go)
+    return 'err:NonTermination' if out == 'err:WallClock' else out
 
 
 def parse_out(out):
